@@ -286,7 +286,7 @@ Proof.
     destruct st as [t|].
     + cbn [relativity_ctor] in HP. destruct (tok_is_reserved t); [discriminate|]. destruct (tok_is_optionlike t); [discriminate|].
       destruct t as [q fs]. unfold without_explicit_relativity in HP. cbn [st_frags creation_conf c_acc c_default] in HP.
-      destruct fs as [|f1 fs1]; [discriminate|].
+      destruct fs as [|f1 fs1]; [injection HP as <-; apply sh_opt; reflexivity|].
       destruct f1 as [c|n1].
       * destruct fs1 as [|f2 fs2].
         -- injection HP as <-. unfold just_string_argument. rewrite abs_iff. cbn [c_default].
